@@ -225,14 +225,14 @@ func (o *Outcome) classifyErr() {
 		o.OK = true
 		return
 	}
-	var ua *am.ErrArgumentUnsatisfied
-	if errors.As(o.Err, &ua) {
-		o.Unsat = ua
-	}
 	for id, e := range o.World.Errs {
 		if e == o.Err {
 			o.ConvFail = id
 		}
+	}
+	var ua *am.ErrArgumentUnsatisfied
+	if o.ConvFail == "" && errors.As(o.Err, &ua) {
+		o.Unsat = ua
 	}
 }
 
